@@ -264,7 +264,8 @@ def run_case(case):
         if proc == 'concatenate' and want_sel:
             idx = [names.index(n) for n in want_sel]
             nonconsecutive = idx != list(range(idx[0], idx[0] + len(idx)))
-        lenient_error = sel_err is not None or not want_sel or nonconsecutive
+        # an empty selection may be rejected by steps that need a target (set_type ...); concatenate has nothing to do then
+        lenient_error = sel_err is not None or (not want_sel and proc != 'concatenate') or nonconsecutive
 
         def v(kind, msg, **kw):
             mech = None
